@@ -291,13 +291,17 @@ fn tagged_row(m: &Msg) -> Vec<u64> {
   }
   r
 }
-/// message spec {"id":n, "sizes":[...], "flags": "ok"|"none"} -> frames
+/// message spec {"id":n, "sizes":[...], "flags": "ok"|"none"|"all"} -> frames
 fn build_message(sender: u64, m: &Value) -> Vec<Msg> {
   let sizes: Vec<u64> = m["sizes"].as_array().unwrap().iter().map(|x| x.as_u64().unwrap()).collect();
   let n = sizes.len() as u64;
   let id = u(m, "id");
-  let flags_ok = m["flags"].as_str() != Some("none");
-  sizes.iter().enumerate().map(|(i, &l)| tagged(sender, id, i as u64, n, l, flags_ok && (i as u64) + 1 < n)).collect()
+  let style = m["flags"].as_str().unwrap_or("ok");
+  sizes
+    .iter()
+    .enumerate()
+    .map(|(i, &l)| tagged(sender, id, i as u64, n, l, match style { "none" => false, "all" => true, _ => (i as u64) + 1 < n }))
+    .collect()
 }
 fn err_code(e: &ZmqError) -> u64 {
   match e {
